@@ -544,9 +544,10 @@ class Optimizer(Logger, Citable):
             return np.nan
 
         res = (mydata.ravel() - final_model.ravel()) / datastd.ravel()
-        res = np.nansum(res*res)
-        if res == 0:
-            res = np.nan
+        # A NaN anywhere in the binned model must make the chi-square NaN
+        # (nansum would drop it and return a finite value), and a model that
+        # fits exactly has chi-square zero
+        res = np.sum(res*res)
 
         return res
 
